@@ -93,8 +93,8 @@ def trigger (s : State) (r : Tpv) : Option Nat :=
     | none => none
     | some ts =>
       let diff := gdtSub (ts % 65536) lg
-      if diff ≥ s.tGenVam then some 1
-      else if s.gated ∧ diff < T_GENVAMMIN then none
+      if s.gated ∧ diff < T_GENVAMMIN then none
+      else if diff ≥ s.tGenVam then some 1
       else if posTrig s r then some 2
       else if speedTrig s r then some 3
       else if headingTrig s r then some 4
@@ -109,9 +109,10 @@ def step (s : State) (op : Op) : State × Option VamOut :=
     | none => (s, none)
     | some k =>
       let lf := lfDue s op.wall
-      let (la, lo) : Int × Int := match op.r.pos with | some p => p | none => (900000001, 1800000001)
       ({ s with
-         lastGdt := some (gdtOf op.r), lastLat7 := la, lastLon7 := lo,
+         lastGdt := some (gdtOf op.r),
+         lastLat7 := (match op.r.pos with | some p => p.1 | none => 900000001),
+         lastLon7 := (match op.r.pos with | some p => p.2 | none => 1800000001),
          lastSpeedCm := speedValue op.r, lastHeadingDdeg := headingValue op.r,
          lastLf := if lf then some op.wall else s.lastLf, isFirst := false },
        some { its := op.r.its, wall := op.wall, gdt := gdtOf op.r, lf := lf, trig := k, rid := op.r.rid })
